@@ -33,10 +33,18 @@ def clean_prefix(rng, n):
     return s
 
 
-def decoy_prefix(rng):
+def decoy_prefix(rng, gap=None, first=None):
+    """stub + marker + stub + a header-like decoy + stub.  gap: bytes between the decoy and the real archive; first: the decoy's first byte
+    (in real stubs the bytes around the signature are code, so what would be a header's length byte is anything)"""
     mk = rng.choice([b"LHA-SFX", b"LhASFX V1.2,"])
     decoy = arc.Member(level=rng.choice([0, 1, 2]), method=b"-lh5-", name=b"DECOY", payload=b"", length=7, crc=1).header()
-    return clean_prefix(rng, rng.randrange(0, 600)) + mk + clean_prefix(rng, rng.randrange(0, 40)) + decoy + clean_prefix(rng, rng.randrange(0, 300))
+    if gap is None:
+        gap = rng.choice([0, 1, 2, 3, 7, 30]) if rng.random() < 0.5 else rng.randrange(0, 300)
+    if first is None:
+        first = rng.choice([None, None, 0, 0xFF, 0x7F, decoy[0] + 3])
+    if first is not None:
+        decoy = bytes([first & 0xFF]) + decoy[1:]
+    return clean_prefix(rng, rng.randrange(0, 600)) + mk + clean_prefix(rng, rng.randrange(0, 40)) + decoy + clean_prefix(rng, gap)
 
 
 def stream_jobs(rng, sc, tier, ev):
@@ -48,7 +56,8 @@ def stream_jobs(rng, sc, tier, ev):
         plens = plens[::3] + [255 * 1024 - 1]
     else:
         plens += [rng.randrange(1024, 255 * 1024) for _ in range(6)] + [255 * 1024 - 1, 256 * 1024 - 30, 256 * 1024 + 5, 256 * 1024 + 40]
-    cases = [("plain%d" % n, clean_prefix(rng, n)) for n in plens] + [("decoy%d" % i, decoy_prefix(rng)) for i in range(10 if tier == "quick" else 80)]
+    cases = [("plain%d" % n, clean_prefix(rng, n)) for n in plens] + [("decoy%d" % i, decoy_prefix(rng)) for i in range(10 if tier == "quick" else 80)] + \
+        [("decoyg%df%s" % (g_, f_), decoy_prefix(rng, gap=g_, first=f_)) for g_ in (0, 1, 2, 3, 10, 40) for f_ in (None, 0, 0xFF, 0x60)]
     # a first header that carries a method signature but is otherwise impossible (level byte 4, 0x10, 0xFF; length byte 0): the scan
     # goes by the signature alone, at every position of the header in the 24-byte window
     damaged = [("damaged%d_%d" % (n, k), clean_prefix(rng, n), k) for n in (range(0, 26) if tier == "quick" else range(0, 50)) for k in (n % 4,)]
